@@ -21,6 +21,20 @@ def _mentions(t, k, cache):
     return r
 
 
+def _has_binder(t):
+    stack = [t]
+    seen = set()
+    while stack:
+        x = stack.pop()
+        if x.get_id() in seen:
+            continue
+        seen.add(x.get_id())
+        if z3.is_quantifier(x) or z3.is_var(x):
+            return True
+        stack.extend(x.children())
+    return False
+
+
 def index_patterns(body, k, limit=8):
     """Every array read `A[k]` (A not mentioning k) is an alternative single-term trigger."""
     cache = {}
@@ -34,7 +48,8 @@ def index_patterns(body, k, limit=8):
         seen.add(t.get_id())
         if z3.is_quantifier(t):
             continue
-        if z3.is_select(t) and z3.eq(t.arg(1), k) and not _mentions(t.arg(0), k, cache):
+        if z3.is_select(t) and z3.eq(t.arg(1), k) and not _mentions(t.arg(0), k, cache) \
+                and not _has_binder(t.arg(0)):
             found[t.get_id()] = t
         stack.extend(t.children())
     pats = list(found.values())
@@ -54,7 +69,21 @@ def forall(eng, lo, hi, body_fn, name="q"):
         body = body_fn(k)
         pats = index_patterns(body, k)
         f = z3.Implies(z3.And(k >= lo, k < hi), body)
-        return z3.ForAll([k], f, patterns=pats) if pats else z3.ForAll([k], f)
+        q = z3.ForAll([k], f, patterns=pats) if pats else z3.ForAll([k], f)
+        offs = getattr(eng, "reindex", None)
+        if offs:
+            # a callee clause about a slice argument xs[a:b]: also state it over the base
+            # sequence's own indices (equivalent formula, k' = k + a) so that reads of the base
+            # sequence trigger it
+            parts = [q]
+            for o in offs:
+                k2 = z3.Int(V.fresh_name(name + "r"))
+                body2 = z3.simplify(body_fn(k2 - o))
+                pats2 = index_patterns(body2, k2)
+                if pats2:
+                    parts.append(z3.ForAll([k2], z3.Implies(z3.And(k2 >= lo + o, k2 < hi + o), body2), patterns=pats2))
+            return z3.And(parts)
+        return q
     return z3.And([z3.Implies(z3.And(lo <= i, i < hi), body_fn(z3.IntVal(i))) for i in _window(eng, lo, hi)])
 
 
@@ -64,7 +93,18 @@ def exists(eng, lo, hi, body_fn, name="q"):
         body = body_fn(k)
         pats = index_patterns(body, k)
         f = z3.And(k >= lo, k < hi, body)
-        return z3.Exists([k], f, patterns=pats) if pats else z3.Exists([k], f)
+        q = z3.Exists([k], f, patterns=pats) if pats else z3.Exists([k], f)
+        offs = getattr(eng, "reindex", None)
+        if offs:
+            parts = [q]
+            for o in offs:
+                k2 = z3.Int(V.fresh_name(name + "r"))
+                body2 = z3.simplify(body_fn(k2 - o))
+                pats2 = index_patterns(body2, k2)
+                if pats2:
+                    parts.append(z3.Exists([k2], z3.And(k2 >= lo + o, k2 < hi + o, body2), patterns=pats2))
+            return z3.Or(parts)
+        return q
     return z3.Or([z3.And(lo <= i, i < hi, body_fn(z3.IntVal(i))) for i in _window(eng, lo, hi)])
 
 
